@@ -308,6 +308,30 @@ def action_case(value):
                         % (getattr(ds, 'TransactionUID', None), got_ok, got_bad), case)
 
 
+def action_retry_case(mode, k):
+    """A commitment request whose result could NOT be reported (the node it should go to refuses / does not answer /
+    does not confirm the release / the handler itself failed), and then the requester's retry with the SAME Transaction
+    UID on a new association: the retry is a request like any other."""
+    from pynetdicom2 import sopclass, exceptions
+    transaction = '1.2.826.0.1.3680043.9.17.%d.%d' % (k, ('refuse', 'no-answer', 'release-unconfirmed', 'handler-failed').index(mode))
+    refs = [(svc.CT_STORAGE, '1.2.3.4.%d' % (i + 1)) for i in range(2)]
+    fail_handler = [mode == 'handler-failed']
+
+    def on_request(remote_ae, uids_):
+        if fail_handler[0]:
+            raise exceptions.EventHandlingError('scripted')
+        return dict(REMOTE), list(refs), []
+    req = {0x0003: svc.COMMITMENT, 0x0100: 0x0130, 0x0110: 3, 0x1001: svc.COMMITMENT_INSTANCE, 0x1008: 1}
+    data = svc.enc_ds(commitment_ds(transaction, refs))
+    sub = {'refuse': svc.sub_plan(reject=(1, 1, 1)), 'no-answer': svc.sub_plan(respond=False),
+           'release-unconfirmed': svc.sub_plan(confirm_release=False), 'handler-failed': svc.sub_plan()}[mode]
+    ae = svc.make_server({'on_commitment_request': on_request}, [sopclass.StorageCommitment()])
+    run_primary(ae, [(1, svc.COMMITMENT)], [(req, data, 1)], [sub])         # (however this one ends)
+    fail_handler[0] = False
+    # the retry, judged like every other request
+    action_case((3, 1, transaction, 2, 0, 'ok', 'list'))
+
+
 # ---- N-EVENT-REPORT (storage commitment result received) ------------------------------------------
 def report_case(value):
     msg_id, pc_id, transaction, nok, nfail, outcome_kind = value
@@ -402,6 +426,15 @@ def run_family(ctx, job):
             v = (mid, svc.VERIFICATION, 1, ('status', 0))
             ctx.case((fam, 'boundary', mid), True, labels=['svc=echo', 'boundary-id'])
             ctx.check(fn, v)
+    if fam == 'n_action':
+        for k, mode in enumerate(('refuse', 'no-answer', 'release-unconfirmed', 'handler-failed') * 2):
+            ctx.case((fam, 'retry', mode, k), True, labels=['svc=n_action', 'retry-after-failed-report'],
+                     sample={'family': fam, 'first attempt': mode})
+            try:
+                action_retry_case(mode, k)
+            except Violation as v:
+                ctx.fail(v.key + ':retry', v.what + ' [a retry: the result of an earlier request with the same Transaction '
+                         'UID could not be reported (%s)]' % mode, {'svc': 'n_action-retry', 'mode': mode, 'k': k})
     if fam in ('n_action', 'n_event_report'):
         for mid in MSG_IDS:
             for k, (nok, nfail) in enumerate(((2, 0), (0, 2), (1, 1), (0, 0))):
@@ -416,7 +449,7 @@ def run(ctx):
     warnings.simplefilter('ignore')
     ctx.rule = ('one Hypothesis search per provider callable (verification_scp, storage_scp in memory and file-backed, '
                 'qr_find_scp, modality_work_list_scp, qr_move_scp with a scripted destination, StorageCommitment '
-                'n_action incl. its N-EVENT-REPORT on the sub-association, StorageCommitment n_event_report): message '
+                'n_action incl. its N-EVENT-REPORT on the sub-association and a retry with the same Transaction UID after a result that could not be reported, StorageCommitment n_event_report): message '
                 'ids over the 16-bit range with boundaries enumerated, SOP class/instance UIDs of length 1-64, odd '
                 'context ids 1-255, handler outcomes from every status class and EventHandlingError; requests are '
                 'reference-encoded, responses are read from the bytes handed to the provider; non-trivial = '
@@ -433,6 +466,9 @@ def replay(case):
     warnings.simplefilter('ignore')
     LAZY[0] = bool(case.get('lazy'))
     s = case['svc']
+    if s == 'n_action-retry':
+        action_retry_case(case['mode'], case['k'])
+        return
     oc = case['outcome']
     if isinstance(oc, list):
         oc = tuple(oc)
